@@ -215,9 +215,9 @@ func (hc *httpCache) initFromStore() (err error) {
 	if err != nil {
 		return
 	}
-	// 只有hit（必须有响应数据）与hit for pass才会保存至store，而且必须有过期时间
+	// 只有hit（必须有响应数据，且状态码为合法的HTTP状态码）与hit for pass才会保存至store，而且必须有过期时间
 	validStatus := tmp.status == StatusHitForPass ||
-		(tmp.status == StatusHit && tmp.response != nil && tmp.response.StatusCode != 0)
+		(tmp.status == StatusHit && tmp.response != nil && tmp.response.StatusCode >= 100 && tmp.response.StatusCode <= 999)
 	if !validStatus || tmp.expiredAt == 0 {
 		return ErrInvalidStoreData
 	}
